@@ -493,7 +493,11 @@ Definition guard_err_possible (p : prog) (c : cfg) (tr : list event) (e : err) :
   | ECode 206 => existsb (fun tk => negb (g_required (t_g tk))) p
   | ECode 207 => existsb (fun tk => negb (g_enum (t_g tk))) p
   | ECode 205 => existsb (fun tk => g_prompt (t_g tk)) p && negb (cf_yes c)
-  | EPrecond => existsb (fun tk => match g_precond (t_g tk) with Some false => true | _ => false end) p
+  | EPrecond => existsb (fun tk => match g_precond (t_g tk) with Some false => true | _ => false end) p ||
+                (* under --force(-all) preconditions are evaluated even when the context is already
+                   cancelled and then fail; a skipped caller can carry that error to the top first *)
+                (existsb (fun ev => match ev with EvSkipping _ _ => true | _ => false end) tr &&
+                 (cf_force c || cf_forceall c))
   | ECode 204 => callcount_possible p c
   | ECode 202 => existsb t_internal p
   | ETaskRun None => negb (no_guard_errors p c) || callcount_possible p c
